@@ -127,6 +127,20 @@ func twoSchemas(wk *worker) map[string]*abs.Built {
 	return m
 }
 
+// exactSeen: the same (operation name, text) was requested on the same schema instance earlier in the
+// history with no reset in between.
+func exactSeen(v *c06Vector, i int) bool {
+	for j := i - 1; j >= 0; j-- {
+		if v.Steps[j].O == "reset" {
+			return false
+		}
+		if v.Steps[j].Text == v.Steps[i].Text && v.Steps[j].Op == v.Steps[i].Op && v.Steps[j].S == v.Steps[i].S {
+			return true
+		}
+	}
+	return false
+}
+
 func callsKey(cs []abs.Call) map[string]int {
 	m := map[string]int{}
 	for _, c := range cs {
@@ -292,11 +306,17 @@ func runC06History(v *c06Vector, mode string, schemas map[string]*abs.Built, st 
 				return "a bypassing Get touched the cache", detail(evs)
 			}
 		case "plain":
-			if obsOut != s.X.Out {
-				return fmt.Sprintf("lookup outcome %s, the LRU model says %s", obsOut, s.X.Out), detail(evs)
+			// The property does not prescribe the replacement policy: a hit must be PERMITTED (the very same
+			// request was served on this schema instance since the last reset), the bound must hold and the
+			// counters must tell the truth.  (Whether the LRU model would have hit is only counted.)
+			if obsOut == "hit" && s.X.Out != "hit" && !exactSeen(v, i) {
+				return "a hit was served for a request that was not made before on this schema instance", detail(evs)
 			}
-			if obsLen != s.X.Len {
-				return fmt.Sprintf("cache holds %d entries after the step, the LRU model says %d", obsLen, s.X.Len), detail(evs)
+			if obsLen > v.Max {
+				return fmt.Sprintf("cache retains %d entries, MaxEntries is %d", obsLen, v.Max), detail(evs)
+			}
+			if obsOut != s.X.Out {
+				st.Add("plain_differs_from_lru_model", 1)
 			}
 			if (obsOut == "hit") != (h1 == h0+1) || (obsOut != "hit") != (m1 == m0+1) {
 				return "hit/miss counters do not match the lookup outcome", detail([]uint64{h0, m0, h1, m1})
